@@ -158,6 +158,23 @@ pub fn dump() -> Value {
             shrunk!("lj_circle", PotentialState::from_group(LJShape2::circle(), &g).unwrap());
             shrunk!("lj_trimer", PotentialState::from_group(LJShape2::from_trimer(0.637556, 120., 1.), &g).unwrap());
         }
+        // ... and the same states loaded from a file with a side ratio ABOVE one (valid: the ranges are relative
+        // to the current values)
+        {
+            macro_rules! wide {
+                ($name:expr, $st:expr, $t:ty) => {{
+                    let mut v = serde_json::to_value(&$st).unwrap();
+                    v["cell"]["ratio"] = json!(1.75);
+                    let st: $t = serde_json::from_value(v).unwrap();
+                    states.insert(format!("{}@wide", $name), probe_state(&st));
+                }};
+            }
+            wide!("hard_polygon4", PackedState::from_group(LineShape::polygon(4).unwrap(), &g).unwrap(), PackedState<LineShape>);
+            wide!("hard_circle", PackedState::from_group(MolecularShape2::circle(), &g).unwrap(), PackedState<MolecularShape2>);
+            wide!("hard_trimer", PackedState::from_group(MolecularShape2::from_trimer(0.637556, 120., 1.), &g).unwrap(), PackedState<MolecularShape2>);
+            wide!("lj_circle", PotentialState::from_group(LJShape2::circle(), &g).unwrap(), PotentialState<LJShape2>);
+            wide!("lj_trimer", PotentialState::from_group(LJShape2::from_trimer(0.637556, 120., 1.), &g).unwrap(), PotentialState<LJShape2>);
+        }
         groups.push(json!({
             "cli": name, "name": g.name, "family": format!("{:?}", g.family),
             "ops_str": g.wyckoff_str, "ops": ops, "ops_error": err,
